@@ -73,8 +73,10 @@ def oracle_csr(ctx, c0, c1, r0, r1):
     tolP = (sum(tol_spec) + (N + 8) * U * sum(abs(v) for v in r0["spectrum"])) / dq2
     tolW = sum(abs(p) for p in r0["padded"]) * K * U * c0.cond() / 2
     tol = tolP + tolW + Fraction(abs(rhs)) * 8 * U
+    where = (" [wake asked from the SAME ElectricField right after updateCSR()%s]" % (", %d earlier wakePotential() calls before" % len(c0.warm) if getattr(c0, "warm", None) else "")
+             if getattr(c0, "same", False) else "")
     if abs(float(lhs) - rhs) > float(tol):
-        ctx.violation("impl-oracle", "CSR power and wake loss differ by more than the zero-frequency and top-cell terms (Parseval)",
+        ctx.violation("impl-oracle", "CSR power and wake loss differ by more than the zero-frequency and top-cell terms (Parseval)" + where,
                       case=c0.replay("csr"), observed=dict(power_over_df_dq2=float(r0["power"][0] / (df * dq2)), half_sum_rho_W=float(loss),
                                                            residual=float(lhs)),
                       expected=dict(exempt_terms=rhs, tol=float(tol)), sig=dict(kind="csr", clause="parseval"))
@@ -95,7 +97,7 @@ def oracle_csr(ctx, c0, c1, r0, r1):
                 ctx.violation("impl-oracle", "CSR power and one half of the sum over the bunch of profile times wakePotential()/getWakeScaling() differ by more "
                               "than the zero-frequency and top-cell terms (Parseval on the RETURNED wake; bunch in bucket %d, spacing %d cells%s)"
                               % (c0.buckets[0], c0.s, "; the sum over the padded buffers agrees: the wake is read back somewhere else than the bunch was placed"
-                                 if abs(float(lhs) - rhs) <= float(tol) else ""),
+                                 if abs(float(lhs) - rhs) <= float(tol) else "") + where,
                               case=c0.replay("csr"), observed=dict(power_over_df_dq2=float(r0["power"][0] / (df * dq2)), half_sum_profile_times_returned_wake=float(loss_rb),
                                                                    half_sum_over_padded_buffers=float(loss), residual=float(lhs_rb)),
                               expected=dict(exempt_terms=rhs, tol=float(tol_rb)),
@@ -322,6 +324,7 @@ def replay(ctx, rp):
     c0.passive = c1.passive = note.startswith("passive") or note.startswith("smooth")
     if c.get("warm"):
         c0.warm = c1.warm = [[fx(p) for p in profs] for profs in c["warm"]]
+    c0.same = c1.same = bool(c.get("same_object", False))
     coq = vp_coq.full_check("C07", ctx, fams=("dft",))
     if c["kind"] == "csrmb":
         c0.pre = c1.pre = [(o["op"], [fx(p) for p in o["prof"]]) for o in c.get("pre", [])]
